@@ -7,6 +7,8 @@
 package main
 
 import (
+	"encoding/base64"
+	"encoding/hex"
 	"bufio"
 	"bytes"
 	"context"
@@ -41,7 +43,7 @@ import (
 // ops that reach driver goroutines
 func isChildOp(op string) bool {
 	switch strings.SplitN(op, " ", 2)[0] {
-	case "hs", "hsnoauth", "disclose", "hsx", "newsession", "nocred", "disclose2", "sesscfg", "mon", "tlsx", "tlscred", "sessx", "sessauth":
+	case "hs", "hsnoauth", "disclose", "hsx", "newsession", "nocred", "disclose2", "sesscfg", "mon", "tlsx", "tlscred", "sessx", "sessauth", "noleak":
 		return true
 	}
 	return false
@@ -293,6 +295,7 @@ type scenario struct {
 	static string
 	prov   string
 	script []string
+	leak   bool // noleak: the driver's logger output (L events) and the text of the returned error (E event) are recorded
 }
 
 func kv(w, key string) string {
@@ -321,6 +324,17 @@ func parseScenario(op string) scenario {
 			m = "newsession"
 		}
 		return scenario{mode: m, host: h, static: kv(w[2], "static"), prov: kv(w[3], "prov"), script: w[4:]}
+	case "noleak":
+		// <ns|cx> host=<k> static=<auth> prov=<provider> <frames…>
+		h, err := strconv.Atoi(kv(w[2], "host"))
+		if err != nil {
+			panic("bad host")
+		}
+		m := map[string]string{"ns": "newsession", "cx": "connect"}[w[1]]
+		if m == "" {
+			panic("bad noleak mode " + w[1])
+		}
+		return scenario{mode: m, host: h, static: kv(w[3], "static"), prov: kv(w[4], "prov"), script: w[5:], leak: true}
 	case "tlsx", "tlscred":
 		// <cfg> <ehv> <ca> <auth> <class> <certA> <certB> <dial>…
 		if len(w) < 9 {
@@ -372,6 +386,28 @@ func parseScenario(op string) scenario {
 }
 
 var discardLogger = log.New(io.Discard, "", 0)
+
+// emitWriter: every write of the driver's logger becomes an L event
+type emitWriter struct{}
+
+func (emitWriter) Write(b []byte) (int, error) {
+	emit("L", vh.Hex(b))
+	return len(b), nil
+}
+
+func scenarioLogger(sc scenario) gocql.StdLogger {
+	if sc.leak {
+		return log.New(emitWriter{}, "", 0)
+	}
+	return discardLogger
+}
+
+// reportErr: the text of the error the caller gets (noleak scenarios)
+func reportErr(sc scenario, err error) {
+	if sc.leak && err != nil {
+		emit("E", vh.Hex([]byte(fmt.Sprintf("%v | %+v | %#v", err, err, err))))
+	}
+}
 
 // runScenario runs the real driver code; everything observable on the way is emitted, the result is the outcome class
 func runScenario(sc scenario) (outcome string) {
@@ -429,12 +465,13 @@ func runScenario(sc scenario) (outcome string) {
 		d := &scriptedDialer{script: sc.script}
 		cfg := gocql.NewCluster("10.0.0.1")
 		cfg.ProtoVersion, cfg.ConnectTimeout, cfg.Timeout = 4, driverTimeout, driverTimeout
-		cfg.Logger = discardLogger
+		cfg.Logger = scenarioLogger(sc)
 		cfg.HostDialer = d
 		cfg.Authenticator = mkAuth(sc.static)
 		cfg.AuthProvider = mkProvider(sc.prov)
 		err := gocql.VerifConnect(cfg, "", net.IPv4(10, 0, 0, byte(sc.host)), 9042)
 		d.wg.Wait()
+		reportErr(sc, err)
 		return classify(err)
 	case "tls":
 		return runTLS(sc)
@@ -442,7 +479,7 @@ func runScenario(sc scenario) (outcome string) {
 		d := &scriptedDialer{script: sc.script, once: true}
 		cfg := gocql.NewCluster(fmt.Sprintf("10.0.0.%d", sc.host))
 		cfg.ProtoVersion, cfg.ConnectTimeout, cfg.Timeout = 4, driverTimeout, driverTimeout
-		cfg.Logger = discardLogger
+		cfg.Logger = scenarioLogger(sc)
 		cfg.DisableInitialHostLookup = true
 		cfg.HostDialer = d
 		cfg.Authenticator = mkAuth(sc.static)
@@ -452,6 +489,7 @@ func runScenario(sc scenario) (outcome string) {
 			s.Close()
 		}
 		d.wg.Wait()
+		reportErr(sc, err)
 		if err == nil {
 			return "session"
 		}
@@ -748,6 +786,11 @@ func format(op string, r raw) string {
 			return r.fatal
 		}
 		return monitor(parseScenario(op), r)
+	case "noleak":
+		if r.fatal != "" {
+			return r.fatal
+		}
+		return noLeak(parseScenario(op), r)
 	case "tlsx", "tlscred":
 		return formatTLS(w[0], r)
 	case "sessx", "sessauth":
@@ -1267,4 +1310,74 @@ func formatSess(op string, r raw) string {
 		out = append(out, fmt.Sprintf("%s prov=%s tok=%s %s", d.name, list(d.prov), tok, ready))
 	}
 	return strings.Join(out, " | ")
+}
+
+// ---------- credentials never show up in what the driver logs or reports (op `noleak`)
+
+var pwRe = regexp.MustCompile(`pw:([0-9a-f-]+):([0-9a-f-]+):`)
+var cuRe = regexp.MustCompile(`cu:([0-9a-f.,-]+)[:|]`)
+
+// secrets: the distinctive user names, passwords and caller-authenticator tokens anywhere in the configuration
+// (the dialled host's and the other hosts')
+func secrets(sc scenario) [][]byte {
+	var out [][]byte
+	addHex := func(h string) {
+		// only the distinctive ones (genSecret): a user name like "cassandra" legitimately occurs in the class names
+		// the SERVER sends, which the driver's errors quote
+		if b := mustHex(h); len(b) >= 14 && (bytes.HasPrefix(b, []byte("usr-")) || bytes.HasPrefix(b, []byte("pwd-")) || bytes.HasPrefix(b, []byte("tok-"))) {
+			out = append(out, b)
+		}
+	}
+	for _, src := range []string{sc.static, sc.prov} {
+		for _, m := range pwRe.FindAllStringSubmatch(src, -1) {
+			addHex(m[1])
+			addHex(m[2])
+		}
+		for _, m := range cuRe.FindAllStringSubmatch(src, -1) {
+			for _, rd := range strings.Split(m[1], ",") {
+				if i := strings.Index(rd, "."); i > 0 {
+					addHex(rd[:i])
+				}
+			}
+		}
+	}
+	return out
+}
+
+// renderings of a secret a careless Printf would produce
+func renderings(b []byte) map[string]string {
+	dec := make([]string, len(b))
+	for i, x := range b {
+		dec[i] = strconv.Itoa(int(x))
+	}
+	return map[string]string{
+		"raw":    string(b),
+		"hex":    hex.EncodeToString(b),
+		"HEX":    strings.ToUpper(hex.EncodeToString(b)),
+		"base64": base64.StdEncoding.EncodeToString(b),
+		"bytes":  strings.Join(dec, " "),
+		"quoted": strings.Trim(strconv.Quote(string(b)), `"`),
+	}
+}
+
+// noLeak: `clean` iff no log line and no error text contains a credential in any rendering
+func noLeak(sc scenario, r raw) string {
+	type text struct{ where, s string }
+	var texts []text
+	for _, l := range r.ev {
+		if len(l) > 2 && (l[0] == 'L' || l[0] == 'E') {
+			texts = append(texts, text{map[byte]string{'L': "log", 'E': "error"}[l[0]], string(mustHex(l[2:]))})
+		}
+	}
+	for _, sec := range secrets(sc) {
+		rs := renderings(sec)
+		for _, form := range []string{"raw", "quoted", "hex", "HEX", "base64", "bytes"} {
+			for _, t := range texts {
+				if strings.Contains(t.s, rs[form]) {
+					return "LEAK:" + t.where + ":" + form + ":" + vh.Hex([]byte(t.s))
+				}
+			}
+		}
+	}
+	return "clean"
 }
